@@ -190,7 +190,13 @@ pub fn check_path(solver: SolverKind, cfg: &Cfg, euler_dt: f64, dim: usize, y0: 
             if !(cfg.t_end - tl <= euler_dt * (1.0 + 1e-9) + s) {
                 return Err(format!("Euler stopped at t = {tl:e}: a step time before the ending time {:e} is missing (step {euler_dt:e})", cfg.t_end));
             }
-            for w in pts.windows(2) {
+            // The last step is clipped to land on the ending time; t + (end - t) can round to just below it, in which case
+            // that landing point (still strictly before the ending time) is yielded as well: a final point within
+            // rounding of the end after a step no longer than the configured one is part of a valid path.
+            let n = pts.len();
+            let landing = n >= 2 && cfg.t_end - pts[n - 1].0 <= s && pts[n - 1].0 - pts[n - 2].0 <= euler_dt * (1.0 + 1e-9) + s;
+            let regular = if landing { &pts[..n - 1] } else { pts };
+            for w in regular.windows(2) {
                 let g = w[1].0 - w[0].0;
                 if !((g - euler_dt).abs() <= 1e-9 * euler_dt + s) {
                     return Err(format!("Euler step from t = {:e} is {g:e}, configured {euler_dt:e}", w[0].0));
